@@ -9,7 +9,9 @@
        reach; that is only meaning preserving when evaluating rhs cannot fail, loop or have an
        effect -- `droppable`)
    R2  rec f.. g.. in body        =>  rec (kept members) in body'  or  body'
-       when the dropped members are referenced neither by the kept ones nor by body'
+       when the dropped members are referenced neither by the kept ones nor by body', and a
+       dropped member without parameters (a recursive value, evaluated when the group is made) is
+       `droppable`
        (dead_code.rs:40-55, :75-78)
    R3  match {l1 = e1, .. ln = en} with | {li = xi ..} -> body
                                   =>  let p1 = e1 in .. let pn = en in body
@@ -98,14 +100,20 @@ Fixpoint droppable (e : cexpr) : bool :=
   | Data _ args => droppable_list args
   | Rec _ args => droppable_list args
   | Let _ rhs body => droppable rhs && droppable body
-  | LetRec _ body => droppable body
+  | LetRec cs body => droppable_clos cs && droppable body
   | Match s alts => droppable s && droppable_alts alts
   | Cast e => droppable e
   end
 with droppable_list (es : cexprs) : bool :=
   match es with ENil => true | ECons e es' => droppable e && droppable_list es' end
 with droppable_alts (alts : calts) : bool :=
-  match alts with ANil => true | ACons _ e alts' => droppable e && droppable_alts alts' end.
+  match alts with ANil => true | ACons _ e alts' => droppable e && droppable_alts alts' end
+(* the members without parameters (recursive values) are evaluated when the group is made *)
+with droppable_clos (cs : closures) : bool :=
+  match cs with
+  | CNil => true
+  | CCons _ ps body cs' => (negb (is_nil ps) || droppable body) && droppable_clos cs'
+  end.
 
 Definition lit_eqb (a b : lit) : bool :=
   match a, b with
@@ -162,6 +170,9 @@ with size_alts (alts : calts) : nat :=
 Fixpoint length_list (es : cexprs) : nat :=
   match es with ENil => O | ECons _ r => S (length_list r) end.
 
+(* a group may only be dropped when making its value members is droppable *)
+Definition values_droppable (cs : closures) : bool := droppable_clos cs.
+
 Definition is_prim (e : cexpr) : bool := match e with Prim _ => true | _ => false end.
 
 (* the binder the record pattern gives to field fn *)
@@ -193,7 +204,7 @@ Fixpoint vo (k : nat) (a b : cexpr) {struct k} : bool :=
              nodupb (clo_names cs) && vo_clos k cs cs' (fv_clos cs' ++ fv body') && vo k body body'   (* R2 *)
          | _ => false
          end)
-        || (disjointb (clo_names cs) (fv b) && vo k body b)                                (* R2, all dropped *)
+        || (disjointb (clo_names cs) (fv b) && values_droppable cs && vo k body b)         (* R2, all dropped *)
     | Match s alts =>
         (match b with Match s' alts' => vo k s s' && vo_alts k alts alts' | _ => false end)
         || (match s, alts with
@@ -242,7 +253,7 @@ with vo_clos (k : nat) (cs cs' : closures) (kfv : list ident) {struct k} : bool 
          | CCons f' ps' body' r' => N.eqb f f' && list_N_eqb ps ps' && vo k body body' && vo_clos k r r' kfv
          | CNil => false
          end)
-        || (negb (memb f kfv) && vo_clos k r cs' kfv)
+        || (negb (memb f kfv) && (negb (is_nil ps) || droppable body) && vo_clos k r cs' kfv)
     end
   end
 (* the fields l_i = e_i still to be turned into bindings; kept: binders of the bindings kept so far *)
